@@ -10,7 +10,7 @@ from . import common, mcommon
 ID = "C11"
 NEEDS_MODEL = True
 LEVEL = "exploration"
-N = {"quick": 480, "thorough": 8000}
+N = {"quick": 480, "thorough": 24000}
 
 
 def classify(spec, problems):
